@@ -909,6 +909,30 @@ def iso_expected(code):
     return ISO_VARIANTS.get(t, t)
 
 
+def iso_reference(t):
+    """hb_script_from_iso15924_tag as HarfBuzz documents it, in python (None = rejected): the null tag is invalid; the case is
+    adjusted to one capital + three small letters; a variant code is its parent; a tag that then looks like a script code
+    (first byte 0x40..0x5F, the others 0x60..0x7F) is that script; anything else is Zzzz"""
+    if t == 0:
+        return None
+    b = [(t >> 24) & 0xDF, (t >> 16) & 0xDF | 0x20, (t >> 8) & 0xDF | 0x20, t & 0xDF | 0x20]
+    adj = (b[0] << 24) | (b[1] << 16) | (b[2] << 8) | b[3]
+    for v, parent in ISO_VARIANTS.items():
+        if adj == tg(v):
+            return tg(parent)
+    if 0x40 <= b[0] <= 0x5F and all(0x60 <= x <= 0x7F for x in b[1:]):
+        return adj
+    return tg("Zzzz")
+
+
+def str_reference(bs):
+    """Script::from_str: the empty string is an error, else the first four bytes padded with spaces as the tag"""
+    if not bs:
+        return None
+    bs = (bs + b"    ")[:4]
+    return iso_reference(tg(bs))
+
+
 def script_iso_lines(r, scripts, n_random):
     """requests for the script-iso stream with their class: every script constant of the crate and every variant code in all
     16 letter-case spellings; the same with one byte pushed just outside the letters; garbage; strings of every length"""
@@ -958,6 +982,40 @@ def stream_script_iso(ctx, r, scripts):
             ks.append("reply:Zzzz" if int(out) == tg("Zzzz") else "reply:script")
         return ks
     return ctx.correspond("script-iso", lines=lines, classify=classify, canon=canon)
+
+
+def search_script_garbage(ctx, shim, r, scripts, n):
+    """every request class of the script-iso stream (one byte just outside the letters, edge tags, random tags, strings of every
+    length with multi-byte characters) judged by the python reference of the documented behaviour"""
+    lines, cls = script_iso_lines(r, scripts, n)
+    outs = vlib.run_lines(shim, lines)
+    bad, shown, dist = 0, set(), {}
+    for ln, o in zip(lines, outs):
+        t = ln.split()
+        if t[0] == "scriptiso":
+            want = iso_reference(int(t[1]))
+            call = f"Script::from_iso15924_tag(Tag(0x{int(t[1]):08X}))"
+            wants = "none" if want is None else str(want)
+        else:
+            bs = bytes.fromhex(t[1][1:])
+            want = str_reference(bs)
+            call = f"Script::from_str({bs.decode('utf-8')!r})"
+            wants = "err" if want is None else str(want)
+        k = cls.get(ln, "?").split(":")[0]
+        dist[k] = dist.get(k, 0) + 1
+        if o != wants:
+            bad += 1
+            if len(shown) < 3 and k not in shown:
+                shown.add(k)
+                ctx.violation(f"{call} gives {untag(int(o)) if o.isdigit() else o!r}, expected "
+                              f"{untag(int(wants)) if wants.isdigit() else wants!r} (null tag invalid; case adjusted; variant code "
+                              f"-> parent; a tag of four letter-like bytes is itself, anything else Zzzz)",
+                              {"stage": "search", "stream": "script-reference", "request": ln, "call": call, "expected": wants,
+                               "observed": o})
+    ctx.note_search("script-reference", len(lines), len(lines), mismatches=bad, distribution=dist,
+                    rule="the requests of the script-iso stream (all codes in 16 spellings, one byte pushed just outside the letter "
+                         "ranges, edge and random tags, cut / long / multi-byte strings, the empty string) judged by a python "
+                         "transcription of hb_script_from_iso15924_tag's documented behaviour and of Tag::from_bytes_lossy")
 
 
 def search_script_case(ctx, shim, scripts):
@@ -1755,6 +1813,7 @@ def run(ctx):
     search_script_tags(ctx, shim, scripts)
     search_total(ctx, shim, ctx.rng("total"), rows, branch, ctx.budget(4000, 300000))
     search_script_case(ctx, shim, scripts)
+    search_script_garbage(ctx, shim, ctx.rng("script-garbage"), scripts, ctx.budget(4000, 200000))
     search_shape(ctx, cases)
     search_alias_shape(ctx, alias_cases(ctx, ctx.rng("alias-fonts"), shim))
     search_resolve_shape(ctx, mcases)
@@ -1780,9 +1839,10 @@ def replay(ctx, rp):
         print(f"script '{rp['script']}':", o[1]); print(f"script '{rp['parent']}':", o[2])
         print("expected:", rp["expected"], "(selection by the model for the parent:", rp["model_selection_for_parent"], ")")
         return 0 if alias_shape_got(o[1]) == rp["expected"] else 1
-    if rp.get("stream") == "script-case":
+    if rp.get("stream") in ("script-case", "script-reference"):
         a = vlib.run_lines(shim, [rp["request"]], nproc=1)[0]
-        print(rp["call"], "->", a, f"('{untag(int(a))}')" if a.isdigit() else "", "expected", rp["expected"], f"('{rp['expected_script']}')")
+        print(rp["call"], "->", a, f"('{untag(int(a))}')" if a.isdigit() else "", "expected", rp["expected"],
+              f"('{rp['expected_script']}')" if "expected_script" in rp else "")
         return 0 if a == rp["expected"] else 1
     if rp.get("stream") == "resolve-shape":
         lang = "-" if rp["lang"] == "-" else hx(rp["lang"])
